@@ -1734,6 +1734,17 @@ func (n *TxNotifier) handleSpendDetailsAtTip(spendRequest SpendRequest,
 
 	// TODO(wilmer): cancel pending historical rescans if any?
 	spendSet := n.spendNotifications[spendRequest]
+
+	// If we already have spend details for this request, then a script we
+	// are watching was spent more than once. As with confirmations, the
+	// first spend is the one our clients were (or will be) notified of and
+	// the one tracked for reorgs, so we ignore any later ones.
+	if spendSet.details != nil {
+		Log.Warnf("Ignoring script reuse for %s at height %d.",
+			spendRequest, details.SpendingHeight)
+		return
+	}
+
 	spendSet.rescanStatus = rescanComplete
 	spendSet.details = details
 
